@@ -34,3 +34,22 @@ pub open spec fn sem_expacc(s: Seq<Felt>) -> Seq<Felt> {
     keep_with(s, seq![fe(bit), fe(fmul(s[1].val(), s[1].val())),
                      fe(fmul(s[2].val(), if bit == 1 { s[1].val() } else { 1 })), fe(s[3].val() / 2)], 4)
 }
+
+// ---- stack manipulation (docs/src/design/stack/stack_ops.md) -----------------------------------
+pub open spec fn sem_pad(s: Seq<Felt>) -> Seq<Felt> { seq![fe(0)] + s }
+pub open spec fn sem_drop(s: Seq<Felt>) -> Seq<Felt> { s.skip(1) + zf(s) }
+pub open spec fn sem_dup(s: Seq<Felt>, n: int) -> Seq<Felt> { seq![s[n]] + s }
+pub open spec fn sem_swap(s: Seq<Felt>) -> Seq<Felt> { seq![s[1], s[0]] + s.skip(2) }
+pub open spec fn sem_swapw(s: Seq<Felt>) -> Seq<Felt> { s.subrange(4, 8) + s.subrange(0, 4) + s.skip(8) }
+pub open spec fn sem_swapw2(s: Seq<Felt>) -> Seq<Felt> { s.subrange(8, 12) + s.subrange(4, 8) + s.subrange(0, 4) + s.skip(12) }
+pub open spec fn sem_swapw3(s: Seq<Felt>) -> Seq<Felt> { s.subrange(12, 16) + s.subrange(4, 12) + s.subrange(0, 4) + s.skip(16) }
+pub open spec fn sem_swapdw(s: Seq<Felt>) -> Seq<Felt> { s.subrange(8, 16) + s.subrange(0, 8) + s.skip(16) }
+pub open spec fn sem_movup(s: Seq<Felt>, n: int) -> Seq<Felt> { seq![s[n]] + s.take(n) + s.skip(n + 1) }
+pub open spec fn sem_movdn(s: Seq<Felt>, n: int) -> Seq<Felt> { s.subrange(1, n + 1) + seq![s[0]] + s.skip(n + 1) }
+pub open spec fn fail_cswap(s: Seq<Felt>) -> bool { !is_bin(s[0]) }
+pub open spec fn sem_cswap(s: Seq<Felt>) -> Seq<Felt> {
+    shl_with(s, if s[0].val() == 1 { seq![s[2], s[1]] } else { seq![s[1], s[2]] }, 3)
+}
+pub open spec fn sem_cswapw(s: Seq<Felt>) -> Seq<Felt> {
+    shl_with(s, if s[0].val() == 1 { s.subrange(5, 9) + s.subrange(1, 5) } else { s.subrange(1, 5) + s.subrange(5, 9) }, 9)
+}
